@@ -144,18 +144,56 @@ structure Codec.Good (c : Codec) : Prop where
   stable : ∀ (a b : Bytes) (p : Nat), c.findCrlf a = some p → c.findCrlf (a ++ b) = some p
   pos : ∀ (t : Nat) (rest : Bytes) (p : Nat), t ≠ 13 → c.findCrlf (t :: rest) = some p → 1 ≤ p
   strLen : ∀ s : Bytes, (c.str s).length ≤ 3 * s.length
+  skip : ∀ (t : Nat) (rest : Bytes), t ≠ 13 → c.findCrlf (t :: rest) = (c.findCrlf rest).map (· + 1)
+  noCR : ∀ (s rest : Bytes), 13 ∉ s → c.findCrlf (s ++ 13 :: 10 :: rest) = some s.length
+
+theorem findCrlf1_skip (t : Nat) (rest : Bytes) (ht : t ≠ 13) :
+    findCrlf1 (t :: rest) = (findCrlf1 rest).map (· + 1) := by
+  rw [findCrlf1]; simp [ht]
+
+theorem findCrlf2_skip (t : Nat) (rest : Bytes) (ht : t ≠ 13) :
+    findCrlf2 (t :: rest) = (findCrlf2 rest).map (· + 1) := by
+  cases rest with
+  | nil => simp [findCrlf2]
+  | cons y r => rw [findCrlf2]; simp [ht]
+
+theorem findCrlf1_noCR : ∀ (s rest : Bytes), 13 ∉ s → findCrlf1 (s ++ 13 :: 10 :: rest) = some s.length := by
+  intro s
+  induction s with
+  | nil => intro rest _; simp [findCrlf1]
+  | cons x xs ih =>
+    intro rest h
+    simp at h
+    simp only [List.cons_append]
+    rw [findCrlf1_skip x _ (fun e => h.1 e.symm), ih rest h.2]
+    simp
+
+theorem findCrlf2_noCR : ∀ (s rest : Bytes), 13 ∉ s → findCrlf2 (s ++ 13 :: 10 :: rest) = some s.length := by
+  intro s
+  induction s with
+  | nil => intro rest _; simp [findCrlf2]
+  | cons x xs ih =>
+    intro rest h
+    simp at h
+    simp only [List.cons_append]
+    rw [findCrlf2_skip x _ (fun e => h.1 e.symm), ih rest h.2]
+    simp
 
 theorem codec1_good : codec1.Good where
   bound := findCrlf1_bound
   stable := findCrlf1_stable
   pos := findCrlf1_pos
   strLen := by intro s; simp [codec1]; omega
+  skip := findCrlf1_skip
+  noCR := findCrlf1_noCR
 
 theorem codec2_good : codec2.Good where
   bound := findCrlf2_bound
   stable := findCrlf2_stable
   pos := findCrlf2_pos
   strLen := utf8Lossy_length
+  skip := findCrlf2_skip
+  noCR := findCrlf2_noCR
 
 /-! ### consumed counts -/
 
@@ -1180,5 +1218,549 @@ theorem parseD_alloc_len (c : Codec) (hc : c.Good) (mem : Nat) :
                   | inl h => exact Or.inl h
                   | inr h => exact Or.inr (LengthsSane_head c _ _ h)
               · simp
+
+/-! ### the buffer loop: fragmentation does not matter -/
+
+/-- what the buffer loop needs from a decoder -/
+structure ParserSpec (p : Bytes → Outcome) : Prop where
+  empty : (p []).isIncomplete = true
+  consumed : ∀ bs, Small bs → ∀ v k, p bs = .ok v k → 1 ≤ k ∧ k ≤ bs.length
+  stable : ∀ a b, Small (a ++ b) → (p a).isIncomplete = false → p (a ++ b) = p a
+
+def drainAll (p : Bytes → Outcome) (buf : Bytes) : List Frame × Bytes × Bool :=
+  drain p (buf.length + 1) buf
+
+theorem drain_fuel (p : Bytes → Outcome) (hp : ParserSpec p) :
+    ∀ (f g : Nat) (buf : Bytes), Small buf → buf.length < f → buf.length < g →
+      drain p f buf = drain p g buf := by
+  intro f
+  induction f with
+  | zero => intro g buf _ h _; omega
+  | succ f ih =>
+    intro g buf hs hf hg
+    cases g with
+    | zero => omega
+    | succ g =>
+      unfold drain
+      cases hout : p buf with
+      | ok v k =>
+        have hk := hp.consumed buf hs v k hout
+        simp only []
+        rw [ih g (buf.drop k) (hs.drop k) (by simp; omega) (by simp; omega)]
+      | incomplete _ => rfl
+      | error _ => rfl
+      | crash _ => rfl
+
+/-- continue draining after more bytes arrived -/
+def comb (p : Bytes → Outcome) (x : List Frame × Bytes × Bool) (b : Bytes) : List Frame × Bytes × Bool :=
+  if x.2.2 then x
+  else
+    let y := drainAll p (x.2.1 ++ b)
+    (x.1 ++ y.1, y.2.1, y.2.2)
+
+theorem drain_append (p : Bytes → Outcome) (hp : ParserSpec p) (b : Bytes) :
+    ∀ (f : Nat) (a : Bytes), a.length < f → Small (a ++ b) →
+      drainAll p (a ++ b) = comb p (drain p f a) b := by
+  intro f
+  induction f with
+  | zero => intro a h _; omega
+  | succ f ih =>
+    intro a hf hs
+    have hsa : Small a := hs.of_append
+    cases hout : p a with
+    | ok v k =>
+      have hk := hp.consumed a hsa v k hout
+      have hab : p (a ++ b) = .ok v k := by
+        rw [hp.stable a b hs (by simp [hout, Outcome.isIncomplete]), hout]
+      have hs' : Small (a.drop k ++ b) := by
+        unfold Small at *; simp at hs ⊢; omega
+      have hrec := ih (a.drop k) (by simp; omega) hs'
+      unfold drainAll at hrec ⊢
+      rw [drain, hab]
+      simp only []
+      rw [List.drop_append_of_le_length hk.2]
+      rw [drain_fuel p hp (a ++ b).length ((a.drop k ++ b).length + 1) _ hs'
+        (by simp; omega) (by omega)]
+      rw [hrec]
+      conv => rhs; rw [drain, hout]
+      simp only []
+      unfold comb
+      simp only []
+      split <;> simp
+    | incomplete i =>
+      unfold drainAll
+      conv => rhs; rw [drain, hout]
+      simp [comb, drainAll]
+    | error e =>
+      have hab : p (a ++ b) = .error e := by
+        rw [hp.stable a b hs (by simp [hout, Outcome.isIncomplete]), hout]
+      unfold drainAll
+      rw [drain, hab]
+      conv => rhs; rw [drain, hout]
+      simp [comb]
+    | crash e =>
+      have hab : p (a ++ b) = .crash e := by
+        rw [hp.stable a b hs (by simp [hout, Outcome.isIncomplete]), hout]
+      unfold drainAll
+      rw [drain, hab]
+      conv => rhs; rw [drain, hout]
+      simp [comb]
+
+def ofDrain (x : List Frame × Bytes × Bool) : FeedSt := ⟨x.1, x.2.1, x.2.2⟩
+
+theorem feed_ofDrain (p : Bytes → Outcome) (hp : ParserSpec p) (pre c : Bytes) (hs : Small (pre ++ c)) :
+    feed p (ofDrain (drainAll p pre)) c = ofDrain (drainAll p (pre ++ c)) := by
+  have h := drain_append p hp c (pre.length + 1) pre (by omega) hs
+  unfold feed
+  rw [h]
+  unfold comb ofDrain
+  simp only []
+  split
+  · rename_i hd
+    simp [drainAll] at hd ⊢
+    simp [hd]
+  · rename_i hd
+    simp [drainAll] at hd ⊢
+    simp [hd]
+
+theorem feedAll_ofDrain (p : Bytes → Outcome) (hp : ParserSpec p) :
+    ∀ (cs : List Bytes) (pre : Bytes), Small (pre ++ cs.flatten) →
+      feedAll p (ofDrain (drainAll p pre)) cs = ofDrain (drainAll p (pre ++ cs.flatten)) := by
+  intro cs
+  induction cs with
+  | nil => intro pre _; simp [feedAll]
+  | cons c cs ih =>
+    intro pre hs
+    simp only [feedAll, List.foldl_cons, List.flatten_cons] at hs ⊢
+    have hs1 : Small (pre ++ c) := by
+      unfold Small at *; simp at hs ⊢; omega
+    rw [feed_ofDrain p hp pre c hs1]
+    have := ih (pre ++ c) (by simpa using hs)
+    simp only [feedAll] at this
+    rw [this]
+    simp
+
+theorem drainAll_nil (p : Bytes → Outcome) (hp : ParserSpec p) : ofDrain (drainAll p []) = FeedSt.init := by
+  have := hp.empty
+  unfold drainAll ofDrain FeedSt.init
+  simp only [List.length_nil, drain]
+  cases h : p [] with
+  | incomplete _ => rfl
+  | ok _ _ => simp [h, Outcome.isIncomplete] at this
+  | error _ => simp [h, Outcome.isIncomplete] at this
+  | crash _ => simp [h, Outcome.isIncomplete] at this
+
+/-- any fragmentation of a byte stream gives the frames, the left-over bytes and the
+    liveness that feeding it in one piece gives -/
+theorem feedAll_fragmentation (p : Bytes → Outcome) (hp : ParserSpec p) (cs : List Bytes)
+    (hs : Small cs.flatten) : feedAll p FeedSt.init cs = feedAll p FeedSt.init [cs.flatten] := by
+  rw [← drainAll_nil p hp]
+  rw [feedAll_ofDrain p hp cs [] (by simpa using hs)]
+  rw [feedAll_ofDrain p hp [cs.flatten] [] (by simpa using hs)]
+  simp
+
+/-! ### decimal numbers -/
+
+def valRev (ds : Bytes) : Nat := ds.foldr (fun b acc => (b - 48) + 10 * acc) 0
+
+def AllDigits (ds : Bytes) : Prop := ∀ b ∈ ds, 48 ≤ b ∧ b ≤ 57
+
+theorem decRev_spec : ∀ (f n : Nat), n < f →
+    valRev (decRev f n) = n ∧ AllDigits (decRev f n) ∧ decRev f n ≠ [] := by
+  intro f
+  induction f with
+  | zero => intro n h; omega
+  | succ f ih =>
+    intro n h
+    unfold decRev
+    split
+    · refine ⟨by simp [valRev], ?_, by simp⟩
+      intro b hb; simp at hb; omega
+    · have := ih (n / 10) (by omega)
+      refine ⟨?_, ?_, by simp⟩
+      · simp only [valRev, List.foldr_cons] at this ⊢
+        rw [this.1]; omega
+      · intro b hb
+        simp at hb
+        cases hb with
+        | inl h => omega
+        | inr h => exact this.2.1 b h
+
+theorem digitsVal_reverse (ds : Bytes) (h : AllDigits ds) :
+    digitsVal ds.reverse = some (valRev ds) := by
+  unfold digitsVal
+  rw [List.foldl_reverse]
+  induction ds with
+  | nil => simp [valRev]
+  | cons b rest ih =>
+    have hb := h b (by simp)
+    have := ih (fun x hx => h x (by simp [hx]))
+    simp only [List.foldr_cons, this, valRev]
+    simp [isDigit, hb.1, hb.2]
+    omega
+
+theorem dec_val (n : Nat) : digitsVal (dec n) = some n := by
+  have := decRev_spec (n + 1) n (by omega)
+  unfold dec
+  rw [digitsVal_reverse _ this.2.1, this.1]
+
+theorem dec_digits (n : Nat) : AllDigits (dec n) := by
+  have := decRev_spec (n + 1) n (by omega)
+  intro b hb
+  unfold dec at hb
+  exact this.2.1 b (by simpa using hb)
+
+theorem dec_ne_nil (n : Nat) : dec n ≠ [] := by
+  have := decRev_spec (n + 1) n (by omega)
+  unfold dec
+  simpa using this.2.2
+
+theorem dec_noCR (n : Nat) : 13 ∉ dec n := by
+  intro h
+  have := dec_digits n 13 h
+  omega
+
+theorem parseI64_dec (n : Nat) (h : n ≤ 9223372036854775807) : parseI64 (dec n) = some (n : Int) := by
+  have hv := dec_val n
+  have hd := dec_digits n
+  have hne := dec_ne_nil n
+  cases hds : dec n with
+  | nil => exact absurd hds hne
+  | cons b rest =>
+    rw [hds] at hv hd
+    have hb := hd b (by simp)
+    unfold parseI64
+    have h1 : ¬ b = 43 := by omega
+    have h2 : ¬ b = 45 := by omega
+    simp only [h1, h2, if_false, hv]
+    simp [h]
+
+theorem parseI64_showInt (n : Int) (h0 : -9223372036854775808 ≤ n) (h1 : n ≤ 9223372036854775807) :
+    parseI64 (showInt n) = some n := by
+  unfold showInt
+  split
+  · rename_i hneg
+    unfold parseI64
+    have hne := dec_ne_nil n.natAbs
+    simp only [show ¬ (45 : Nat) = 43 by decide, if_false, if_true, hne, dec_val]
+    have : n.natAbs ≤ 9223372036854775808 := by omega
+    simp [this]
+    omega
+  · rw [parseI64_dec n.toNat (by omega)]
+    simp
+    omega
+
+theorem showInt_noCR (n : Int) : 13 ∉ showInt n := by
+  unfold showInt
+  split
+  · intro h
+    simp at h
+    exact dec_noCR _ h
+  · exact dec_noCR _
+
+/-! ### decode ∘ encode -/
+
+theorem hdr_find (c : Codec) (hc : c.Good) (t : Nat) (s rest : Bytes) (ht : t ≠ 13)
+    (h : c.findCrlf (s ++ 13 :: 10 :: rest) = some s.length) :
+    c.findCrlf (t :: (s ++ 13 :: 10 :: rest)) = some (s.length + 1) := by
+  rw [hc.skip t _ ht, h]; rfl
+
+theorem hdr_field (t : Nat) (s rest : Bytes) :
+    field (t :: (s ++ 13 :: 10 :: rest)) (s.length + 1) = some s := by
+  unfold field
+  simp
+
+theorem lineSafe_find (c : Codec) (hc : c.Good) (s rest : Bytes) (h : lineSafe c s = true) :
+    c.findCrlf (s ++ 13 :: 10 :: rest) = some s.length ∧ c.str s = s := by
+  unfold lineSafe at h
+  simp at h
+  have := hc.stable (s ++ [13, 10]) rest s.length h.1
+  simp at this
+  exact ⟨this, h.2⟩
+
+theorem encode2List_eq (a : List Val) : encode2List a = (a.map encode2).flatten := by
+  induction a with
+  | nil => simp [encode2List]
+  | cons v vs ih => simp [encode2List, ih]
+
+theorem encode2_ne_nil (v : Val) : encode2 v ≠ [] := by
+  cases v <;> simp [encode2]
+
+theorem parseLine_encode (c : Codec) (hc : c.Good) (mk : Bytes → Val) (t : Nat) (ht : t ≠ 13)
+    (s rest : Bytes) (h : lineSafe c s = true) :
+    (parseLine c mk (t :: (s ++ 13 :: 10 :: rest))).out = .ok (mk s) (s.length + 3) := by
+  have hl := lineSafe_find c hc s rest h
+  unfold parseLine
+  rw [hdr_find c hc t s rest ht hl.1]
+  simp only [hdr_field, hl.2]
+
+theorem parseInt_encode (c : Codec) (hc : c.Good) (n : Int) (rest : Bytes)
+    (h0 : -9223372036854775808 ≤ n) (h1 : n ≤ 9223372036854775807) :
+    (parseInt c (58 :: (showInt n ++ 13 :: 10 :: rest))).out = .ok (.int n) ((showInt n).length + 3) := by
+  unfold parseInt
+  rw [hdr_find c hc 58 _ rest (by decide) (hc.noCR _ rest (showInt_noCR n))]
+  simp only [hdr_field, parseI64_showInt n h0 h1]
+
+theorem parseBulk_encode (c : Codec) (hc : c.Good) (b rest : Bytes)
+    (hs : Small (36 :: (dec b.length ++ 13 :: 10 :: (b ++ 13 :: 10 :: rest)))) :
+    (parseBulk c (36 :: (dec b.length ++ 13 :: 10 :: (b ++ 13 :: 10 :: rest)))).out =
+      .ok (.bulk b) ((dec b.length).length + 3 + b.length + 2) := by
+  unfold Small at hs
+  simp at hs
+  unfold parseBulk
+  rw [hdr_find c hc 36 _ _ (by decide) (hc.noCR _ _ (dec_noCR _))]
+  simp only [hdr_field, parseI64_dec b.length (by omega)]
+  have hne : ¬ ((b.length : Int) = -1) := by omega
+  simp only [hne, if_false]
+  rw [asUsize_nonneg _ (by omega) (by omega)]
+  simp only [Int.toNat_natCast]
+  unfold W
+  have hm1 : ((dec b.length).length + 1 + 2 + b.length) % 18446744073709551616 = (dec b.length).length + 1 + 2 + b.length :=
+    Nat.mod_eq_of_lt (by omega)
+  have hm2 : ((dec b.length).length + 1 + 2 + b.length + 2) % 18446744073709551616 = (dec b.length).length + 1 + 2 + b.length + 2 :=
+    Nat.mod_eq_of_lt (by omega)
+  rw [hm1, hm2]
+  have hc1 : ¬ ((dec b.length).length + 1 + 2 + b.length + 2 > (36 :: (dec b.length ++ 13 :: 10 :: (b ++ 13 :: 10 :: rest))).length) := by
+    simp; omega
+  have hc2 : ¬ ((dec b.length).length + 1 + 2 > (dec b.length).length + 1 + 2 + b.length ∨
+      (dec b.length).length + 1 + 2 + b.length > (36 :: (dec b.length ++ 13 :: 10 :: (b ++ 13 :: 10 :: rest))).length) := by
+    simp; omega
+  simp only [hc1, hc2, if_false]
+  congr 2
+  · have e1 : (dec b.length).length + 1 + 2 + b.length = ((36 :: (dec b.length ++ [13, 10])) ++ b).length := by
+      simp; omega
+    have e2 : (36 :: (dec b.length ++ 13 :: 10 :: (b ++ 13 :: 10 :: rest))) = ((36 :: (dec b.length ++ [13, 10])) ++ b) ++ (13 :: 10 :: rest) := by
+      simp
+    rw [e2, e1, List.take_left']
+    · have e3 : (dec b.length).length + 1 + 2 = (36 :: (dec b.length ++ [13, 10])).length := by simp
+      rw [e3, List.drop_left']
+      rfl
+    · rfl
+
+theorem elems_encode (p : Bytes → Res) (ec : Bool) :
+    ∀ (a : List Val) (rest : Bytes),
+      (∀ v ∈ a, ∀ r, Small (encode2 v ++ r) → (p (encode2 v ++ r)).out = .ok v (encode2 v).length) →
+      Small ((a.map encode2).flatten ++ rest) →
+      (elems p ec a.length ((a.map encode2).flatten ++ rest)).1 = .ok a (a.map encode2).flatten.length := by
+  intro a
+  induction a with
+  | nil => intro rest _ _; simp [elems]
+  | cons v vs ih =>
+    intro rest hp hs
+    simp only [List.map_cons, List.flatten_cons, List.length_cons, List.append_assoc] at hs ⊢
+    unfold elems
+    have hne : ¬ (ec = true ∧ encode2 v ++ ((vs.map encode2).flatten ++ rest) = []) := by
+      intro h
+      have := h.2
+      simp at this
+      exact encode2_ne_nil v this.1
+    simp only [hne, if_false]
+    have hv := hp v (by simp) ((vs.map encode2).flatten ++ rest) hs
+    simp only [hv]
+    have hk : ¬ ((encode2 v).length > (encode2 v ++ ((vs.map encode2).flatten ++ rest)).length ∧ vs.length ≠ 0 ∧ ¬ ec = true) := by
+      simp; omega
+    simp only [hk, if_false]
+    rw [List.drop_left']
+    · have hs' : Small ((vs.map encode2).flatten ++ rest) := by
+        unfold Small at *; simp at hs ⊢; omega
+      have := ih rest (fun x hx => hp x (by simp [hx])) hs'
+      cases he : elems p ec vs.length ((vs.map encode2).flatten ++ rest) with
+      | mk e al =>
+        rw [he] at this
+        simp only at this
+        subst this
+        simp
+    · rfl
+
+theorem Val.depthList_mem (a : List Val) (v : Val) (h : v ∈ a) : v.depth ≤ Val.depthList a := by
+  induction a with
+  | nil => simp at h
+  | cons x xs ih =>
+    simp only [Val.depthList]
+    simp at h
+    cases h with
+    | inl h => subst h; omega
+    | inr h => have := ih h; omega
+
+theorem Val.wfList_mem (c : Codec) (mem : Nat) (a : List Val) (v : Val) (h : v ∈ a)
+    (hw : Val.wfList c mem a = true) : v.wf c mem = true := by
+  induction a with
+  | nil => simp at h
+  | cons x xs ih =>
+    simp [Val.wfList] at hw
+    simp at h
+    cases h with
+    | inl h => subst h; exact hw.1
+    | inr h => exact ih h hw.2
+
+theorem flatten_len_ge (a : List Val) : a.length ≤ (a.map encode2).flatten.length := by
+  induction a with
+  | nil => simp
+  | cons v vs ih =>
+    have h1 : 1 ≤ (encode2 v).length := by
+      cases h : encode2 v with
+      | nil => exact absurd h (encode2_ne_nil v)
+      | cons _ _ => simp
+    simp only [List.map_cons, List.flatten_cons, List.length_append, List.length_cons]
+    omega
+
+theorem parseArray_encode (c : Codec) (hc : c.Good) (mem : Nat) (p : Bytes → Res) (a : List Val) (rest : Bytes)
+    (hfit : fits c mem a.length = true)
+    (hp : ∀ v ∈ a, ∀ r, Small (encode2 v ++ r) → (p (encode2 v ++ r)).out = .ok v (encode2 v).length)
+    (hs : Small (42 :: (dec a.length ++ 13 :: 10 :: ((a.map encode2).flatten ++ rest)))) :
+    (parseArray c mem p (42 :: (dec a.length ++ 13 :: 10 :: ((a.map encode2).flatten ++ rest)))).out =
+      .ok (.array a) ((dec a.length).length + 3 + (a.map encode2).flatten.length) := by
+  unfold Small at hs
+  simp only [List.length_cons, List.length_append] at hs
+  unfold parseArray
+  rw [hdr_find c hc 42 _ _ (by decide) (hc.noCR _ _ (dec_noCR _))]
+  have hlen := flatten_len_ge a
+  simp only [hdr_field, parseI64_dec a.length (by omega)]
+  have hne : ¬ ((a.length : Int) = -1) := by omega
+  simp only [hne, if_false]
+  unfold fits at hfit
+  simp at hfit
+  have h2 : ¬ preReq c (a.length : Int) > isizeMax := by omega
+  have h3 : ¬ (preReq c (a.length : Int) ≥ mem ∧ preReq c (a.length : Int) ≠ 0) := by
+    cases hfit.2 with
+    | inl h => omega
+    | inr h => omega
+  simp only [h2, h3, if_false, Int.toNat_natCast]
+  have hdrop : (42 :: (dec a.length ++ 13 :: 10 :: ((a.map encode2).flatten ++ rest))).drop ((dec a.length).length + 1 + 2)
+      = (a.map encode2).flatten ++ rest := by
+    have e2 : (42 :: (dec a.length ++ 13 :: 10 :: ((a.map encode2).flatten ++ rest))) =
+        (42 :: (dec a.length ++ [13, 10])) ++ ((a.map encode2).flatten ++ rest) := by simp
+    rw [e2, List.drop_left']
+    simp
+  rw [hdrop]
+  have hs' : Small ((a.map encode2).flatten ++ rest) := by
+    unfold Small; simp only [List.length_append]; omega
+  have := elems_encode p c.emptyCheck a rest hp hs'
+  cases he : elems p c.emptyCheck a.length ((a.map encode2).flatten ++ rest) with
+  | mk e al =>
+    rw [he] at this
+    simp only at this
+    subst this
+    simp
+
+theorem parseD_encode (c : Codec) (hc : c.Good) (mem : Nat) :
+    ∀ (d : Nat) (v : Val), v.depth ≤ d → v.wf c mem = true → ∀ rest, Small (encode2 v ++ rest) →
+      (parseD c mem d (encode2 v ++ rest)).out = .ok v (encode2 v).length := by
+  intro d
+  induction d with
+  | zero =>
+    intro v h
+    cases v <;> simp [Val.depth] at h
+  | succ d ih =>
+    intro v hd hw rest hs
+    cases v with
+    | simple s =>
+      simp [Val.wf] at hw
+      simp only [encode2, crlf, List.cons_append, List.append_assoc, List.nil_append]
+      rw [parseD]
+      simp only [if_true]
+      rw [parseLine_encode c hc _ 43 (by decide) s rest hw]
+      simp
+    | error s =>
+      simp [Val.wf] at hw
+      simp only [encode2, crlf, List.cons_append, List.append_assoc, List.nil_append]
+      rw [parseD]
+      simp only [show ¬ (45 : Nat) = 43 by decide, if_false, if_true]
+      rw [parseLine_encode c hc _ 45 (by decide) s rest hw]
+      simp
+    | int n =>
+      simp [Val.wf] at hw
+      simp only [encode2, crlf, List.cons_append, List.append_assoc, List.nil_append]
+      rw [parseD]
+      simp only [show ¬ (58 : Nat) = 43 by decide, show ¬ (58 : Nat) = 45 by decide, if_false, if_true]
+      rw [parseInt_encode c hc n rest hw.1 hw.2]
+      simp
+    | nullBulk =>
+      simp only [encode2, List.cons_append, List.nil_append]
+      rw [parseD]
+      simp only [show ¬ (36 : Nat) = 43 by decide, show ¬ (36 : Nat) = 45 by decide,
+        show ¬ (36 : Nat) = 58 by decide, if_false, if_true]
+      unfold parseBulk
+      have := hdr_find c hc 36 [45, 49] rest (by decide) (hc.noCR [45, 49] rest (by decide))
+      simp only [List.cons_append, List.nil_append, List.length_cons, List.length_nil] at this
+      rw [this]
+      have hf := hdr_field 36 [45, 49] rest
+      simp only [List.cons_append, List.nil_append, List.length_cons, List.length_nil] at hf
+      simp only [hf]
+      have : parseI64 [45, 49] = some (-1) := by decide
+      simp [this]
+    | bulk b =>
+      simp only [encode2, crlf, List.cons_append, List.append_assoc, List.nil_append] at hs ⊢
+      rw [parseD]
+      simp only [show ¬ (36 : Nat) = 43 by decide, show ¬ (36 : Nat) = 45 by decide,
+        show ¬ (36 : Nat) = 58 by decide, if_false, if_true]
+      rw [parseBulk_encode c hc b rest hs]
+      simp
+      omega
+    | nullArray =>
+      simp only [encode2, List.cons_append, List.nil_append]
+      rw [parseD]
+      simp only [show ¬ (42 : Nat) = 43 by decide, show ¬ (42 : Nat) = 45 by decide,
+        show ¬ (42 : Nat) = 58 by decide, show ¬ (42 : Nat) = 36 by decide, if_false, if_true]
+      unfold parseArray
+      have := hdr_find c hc 42 [45, 49] rest (by decide) (hc.noCR [45, 49] rest (by decide))
+      simp only [List.cons_append, List.nil_append, List.length_cons, List.length_nil] at this
+      rw [this]
+      have hf := hdr_field 42 [45, 49] rest
+      simp only [List.cons_append, List.nil_append, List.length_cons, List.length_nil] at hf
+      simp only [hf]
+      have : parseI64 [45, 49] = some (-1) := by decide
+      simp [this]
+    | array a =>
+      simp [Val.wf] at hw
+      simp only [Val.depth] at hd
+      simp only [encode2, encode2List_eq, crlf, List.cons_append, List.append_assoc, List.nil_append] at hs ⊢
+      rw [parseD]
+      simp only [show ¬ (42 : Nat) = 43 by decide, show ¬ (42 : Nat) = 45 by decide,
+        show ¬ (42 : Nat) = 58 by decide, show ¬ (42 : Nat) = 36 by decide, if_false, if_true]
+      rw [parseArray_encode c hc mem _ a rest hw.1 ?_ hs]
+      · simp
+        omega
+      · intro v hv r hr
+        have h1 := Val.depthList_mem a v hv
+        exact ih v (by omega) (Val.wfList_mem c mem a v hv hw.2) r hr
+
+/-! ### the buffer-appending encoders produce the same bytes as `RespParser::encode` -/
+
+theorem encodeIntoList_eq (a : List Val)
+    (h : ∀ v ∈ a, ∀ buf, encodeInto v buf = buf ++ encode2 v) :
+    ∀ init : Bytes, encodeIntoList a init = init ++ encode2List a := by
+  induction a with
+  | nil => intro init; simp [encodeIntoList, encode2List]
+  | cons v vs ih =>
+    intro init
+    simp only [encodeIntoList, encode2List]
+    rw [h v (by simp), ih (fun x hx => h x (by simp [hx]))]
+    simp
+
+theorem encodeInto_eq_aux : ∀ (d : Nat) (v : Val), v.depth ≤ d → ∀ buf, encodeInto v buf = buf ++ encode2 v := by
+  intro d
+  induction d with
+  | zero => intro v h; cases v <;> simp [Val.depth] at h
+  | succ d ih =>
+    intro v hd buf
+    cases v with
+    | array a =>
+      simp only [Val.depth] at hd
+      rw [encodeInto, encode2]
+      rw [encodeIntoList_eq a (fun v hv b => ih v (by have := Val.depthList_mem a v hv; omega) b)]
+      simp [crlf]
+    | simple s => simp [encodeInto, encode2]
+    | error s => simp [encodeInto, encode2]
+    | int n => simp [encodeInto, encode2]
+    | nullBulk => simp [encodeInto, encode2]
+    | bulk b => simp [encodeInto, encode2]
+    | nullArray => simp [encodeInto, encode2]
+
+theorem encodeInto_eq (v : Val) (buf : Bytes) : encodeInto v buf = buf ++ encode2 v :=
+  encodeInto_eq_aux v.depth v (Nat.le_refl _) buf
+
+theorem encode1_eq (v : Val) : encode1 v = encode2 v := by simp [encode1, encodeInto_eq]
+theorem encode3_eq (v : Val) : encode3 v = encode2 v := by simp [encode3, encodeInto_eq]
 
 end RedisVerif.Resp
